@@ -4,10 +4,10 @@ from __future__ import annotations
 import ast
 import struct
 
-from sa.astx import call_name, src, walk_local
+from sa.astx import call_name, src
 from sa.selftest import Mutant, Silent
-from sa.source import AnalysisError, class_assigns
-from sa.props._lib_i import sect, COMPAT, BlockRaised, NotPure, Raised, eval_block, interp, module_env, peval
+from sa.source import AnalysisError
+from sa.props._lib_i import sect, COMPAT, BlockRaised, Raised, eval_block, interp, module_env, peval
 
 PROPERTY = "C44"
 BANANA = "spread/banana.py"
